@@ -334,6 +334,31 @@ fn thresholds(quick: bool) -> Vec<Scen> {
     v
 }
 
+/// text beyond ASCII (2-, 3- and 4-byte UTF-8 sequences) in every command that carries text, behind
+/// each kind of client handshake (layouts, capability sets, character-set bytes incl. latin1), under
+/// every single cut: the bytes the shim sees are the bytes the client sent, whatever the client
+/// said about itself
+fn texts_behind_handshakes() -> Vec<Scen> {
+    let mut v = Vec::new();
+    for k in 0..N_HANDSHAKE_VARIANTS {
+        let (hs, what) = handshake_variant(k);
+        let mut cmds = Vec::new();
+        let mut exp = vec![auth_cb()];
+        for (i, t) in ["SELECT 'caf\u{e9}'", "\u{65e5}\u{672c}\u{8a9e} \u{20ac}", "db_\u{fc}ber", "x\u{1F600}y"].iter().enumerate() {
+            let (c, cb) = small_cmd(KINDS[i % 3], t.as_bytes());
+            cmds.push(c);
+            exp.push(cb);
+        }
+        let mut conv = Conv::new(cmds);
+        conv.handshake = hs;
+        let mut sc = Scen::new(format!("{} + four commands with text beyond ASCII, one cut", what), conv, exp);
+        let all: Vec<usize> = (1..sc.stream.len()).collect();
+        sc.sets = Some(subsets_upto(&all, 1));
+        v.push(sc);
+    }
+    v
+}
+
 /// multi-packet payloads around k*(2^24-1)
 fn fragmented(quick: bool) -> Vec<Scen> {
     let mut v = Vec::new();
@@ -743,6 +768,7 @@ pub fn build(quick: bool) -> Check {
     let sizes = ChunkFamily::new("payload-size-classes", size_classes(quick));
     let deep = ChunkFamily::new("deep-pipeline", deep_pipeline(quick));
     let ltm = ChunkFamily::new("large-then-many", large_then_many(quick));
+    let texts = ChunkFamily::new("texts-beyond-ascii-behind-every-handshake", texts_behind_handshakes());
     let mut walks: Vec<Box<dyn Family>> = Vec::new();
     // long sessions of every command kind under small and odd read sizes
     {
@@ -771,7 +797,7 @@ pub fn build(quick: bool) -> Check {
         exhaustive: true,
         caps_hit: vec![],
         families: {
-            let mut f: Vec<Box<dyn Family>> = vec![Box::new(small), Box::new(phase), Box::new(thr), Box::new(frag), Box::new(sizes), Box::new(deep), Box::new(ltm), Box::new(InterruptedReads::new())];
+            let mut f: Vec<Box<dyn Family>> = vec![Box::new(small), Box::new(phase), Box::new(thr), Box::new(frag), Box::new(sizes), Box::new(deep), Box::new(ltm), Box::new(texts), Box::new(InterruptedReads::new())];
             f.extend(walks);
             f
         },
